@@ -81,6 +81,13 @@ def expected(lin, L, cls, v, x):
         for A in reversed(ops):
             y = _gen_apply(A.gname, A.oshape, y)
         return y
+    if cls == "Add" and v.get("views") == "reshape":
+        a = linops._cplx("a")
+        xr = x.reshape([snp.prod(x.shape)])
+        return xr + xr * a
+    if cls == "Add" and v.get("views") == "transpose":
+        A0 = ops[1]
+        return snp.transpose(x, (1, 0)) + _gen_apply(A0.gname, A0.oshape, x)
     if cls == "Add":
         y = None
         for A in ops:
